@@ -37,7 +37,11 @@
 //   - lookup and mu are mentioned only in the forms above; no other non-test file of package
 //     actor declares a method of Registry or mentions `<something with Registry>.lookup` / `.mu`
 //     (type information is not used: this check is by the spelling of the selector chain);
-//   - no loop, goto, label, select, switch, closure, go statement.
+//   - no loop, goto, label, select, switch, closure, go statement;
+//   - the rest of package actor uses the registry as the environment of RegSrcSem.v assumes: it calls only
+//     add / insert / get / getByID / GetPID / Remove on <x>.Registry; Remove only as <recv>.…Registry.Remove(<recv>.pid)
+//     (an entry is deleted by the object it names: process.cleanup, Response.Result); insert only in a function that
+//     also calls Start() on the inserted value.
 //
 // usage: regtrans [-repo DIR] [-o FILE]     (DIR defaults to $VERIF_REPO, then /repo)
 package main
@@ -79,6 +83,7 @@ type translator struct {
 	keys   map[string]bool // locals holding proc.PID().ID
 	okVar  string
 	valVar string
+	sites  []string // audited call sites in the other files of the package
 }
 
 func (t *translator) refuse(n ast.Node, format string, a ...any) {
@@ -543,6 +548,7 @@ func (t *translator) checkFile(f *ast.File, dir string) {
 				t.refuse(fd, "%s declares a method of Registry", n)
 			}
 		}
+		t.auditCalls(g, n)
 		ast.Inspect(g, func(x ast.Node) bool {
 			switch x := x.(type) {
 			case *ast.SelectorExpr:
@@ -556,6 +562,68 @@ func (t *translator) checkFile(f *ast.File, dir string) {
 					t.refuse(x, "%s builds a Registry literal", n)
 				}
 			}
+			return true
+		})
+	}
+}
+
+// auditCalls checks the uses of the registry by the rest of package actor against what the
+// environment of RegSrcSem.v assumes: only add / insert / get / getByID / GetPID / Remove are
+// called; Remove is called by an object on its OWN pid (recv.pid: process.cleanup,
+// Response.Result), i.e. an entry is deleted only by the process it names; insert is followed
+// in the same function by <the same value>.Start() (insert + Start = add).
+func (t *translator) auditCalls(g *ast.File, fname string) {
+	for _, d := range g.Decls {
+		fd, ok := d.(*ast.FuncDecl)
+		if !ok || fd.Body == nil {
+			continue
+		}
+		recv := ""
+		if fd.Recv != nil && len(fd.Recv.List) == 1 && len(fd.Recv.List[0].Names) == 1 {
+			recv = fd.Recv.List[0].Names[0].Name
+		}
+		ast.Inspect(fd.Body, func(x ast.Node) bool {
+			c, ok := x.(*ast.CallExpr)
+			if !ok {
+				return true
+			}
+			sel, ok := c.Fun.(*ast.SelectorExpr)
+			if !ok {
+				return true
+			}
+			inner, ok := sel.X.(*ast.SelectorExpr)
+			if !ok || inner.Sel.Name != "Registry" {
+				return true
+			}
+			where := fmt.Sprintf("%s:%s", fname, fd.Name.Name)
+			switch sel.Sel.Name {
+			case "add", "get", "getByID", "GetPID":
+			case "Remove":
+				a, ok := c.Args[0].(*ast.SelectorExpr)
+				if len(c.Args) != 1 || !ok || a.Sel.Name != "pid" || recv == "" || ident(a.X) != recv {
+					t.refuse(c, "%s removes a registry entry that is not its own (%s): the environment of the model lets only the stopped process remove its entry", where, t.src(c))
+				}
+			case "insert":
+				arg := ""
+				if len(c.Args) == 1 {
+					arg = ident(c.Args[0])
+				}
+				started := false
+				ast.Inspect(fd.Body, func(y ast.Node) bool {
+					if cc, ok := y.(*ast.CallExpr); ok && len(cc.Args) == 0 {
+						if ss, ok := cc.Fun.(*ast.SelectorExpr); ok && ss.Sel.Name == "Start" && arg != "" && ident(ss.X) == arg {
+							started = true
+						}
+					}
+					return true
+				})
+				if !started {
+					t.refuse(c, "%s calls insert without starting the inserted process", where)
+				}
+			default:
+				t.refuse(c, "%s calls Registry.%s, which the environment of the model does not know", where, sel.Sel.Name)
+			}
+			t.sites = append(t.sites, where+" "+sel.Sel.Name)
 			return true
 		})
 	}
@@ -719,7 +787,12 @@ func main() {
 		}
 		fmt.Fprintf(&sb, "(%q, m_%s_src)", m, m)
 	}
-	sb.WriteString("].\n")
+	sb.WriteString("].\n\n(* uses of the registry by the rest of package actor, audited against the environment of RegSrcSem.v:\n")
+	sort.Strings(t.sites)
+	for _, c := range t.sites {
+		sb.WriteString("   " + c + "\n")
+	}
+	sb.WriteString("*)\n")
 	if *out == "" {
 		fmt.Print(sb.String())
 		return
